@@ -471,10 +471,27 @@ pub fn c14(ctx: &Ctx) -> i32 {
     eout.violations.extend(oout.violations);
     eout.inconclusive.extend(oout.inconclusive);
     eout.distinct.merge(oout.distinct);
+    // huge multi-asset batches: thousands of instructions across the assets in one step, each at its own time-stamp
+    let mut huge_done = 0u64;
+    for (k, n) in [4100usize, 9000, 66_000].iter().enumerate().take(ctx.tier.pick(2, 3)) {
+        let seed = Sm::derive(ctx.seed, 0x4855_14 + k as u64).next();
+        let r = if k % 2 == 0 { crate::extra::huge_step::<bourse_de::MarketEnv<2, 10>>(seed, *n) } else { crate::extra::huge_step::<bourse_de::MarketEnv<4, 3>>(seed, *n) };
+        match r {
+            Ok(_) => huge_done += *n as u64,
+            Err((kind, detail)) => {
+                if kind == "harness" {
+                    eout.inconclusive.push(format!("huge batch: {}", detail));
+                } else {
+                    eout.violations.push(Violation { signature: format!("C14:step:{}", kind), summary: format!("step / {} in a huge multi-asset batch: {}", kind, detail), replay: json!({"kind": "huge_step", "property": "C14", "seed": seed, "n": n, "env": 1}) });
+                }
+            }
+        }
+    }
     let m = &mout.census;
     let mut violations = mout.violations;
     violations.extend(eout.violations);
     let mut inconclusive = floors(&[
+        ("instructions_in_huge_batches", huge_done, 10_000),
         ("env_overfull_batches", overfull_batches, 1000),
         ("market_ops", m.ops, 100_000),
         ("market_trades", m.trades, 5000),
@@ -972,14 +989,31 @@ pub fn c15(ctx: &Ctx) -> i32 {
             });
         }
     });
-    let (ts, fails) = merged.into_inner().unwrap();
+    let (ts, mut fails) = merged.into_inner().unwrap();
+    // huge batches: submission blocks against position blocks (8 x 8), every instruction must have a position
+    let mut huge_tables: Vec<(usize, [[u64; 8]; 8], Vec<[u64; 8]>)> = Vec::new();
+    for (k, n) in [66_000usize, 70_001, 131_073].iter().enumerate().take(ctx.tier.pick(2, 3)) {
+        let seed = Sm::derive(ctx.seed, 0x4855_15 + k as u64).next();
+        let r = if k % 2 == 0 { crate::extra::huge_step::<bourse_de::Env<10>>(seed, *n) } else { crate::extra::huge_step::<bourse_de::MarketEnv<2, 10>>(seed, *n) };
+        match r {
+            Ok(o) => huge_tables.push((o.n, o.table, o.asset_table)),
+            Err((kind, detail)) => {
+                if kind == "harness" || kind == "panic_in_step" {
+                    fails.push(("unobservable".into(), format!("huge batch: {} {}", kind, detail)));
+                } else {
+                    // an instruction without a position (or two at one position) is not a permutation of the batch
+                    fails.push((format!("huge_batch_{}", kind), detail));
+                }
+            }
+        }
+    }
     let mut violations: Vec<Violation> = Vec::new();
     let unobservable: Vec<&(String, String)> = fails.iter().filter(|f| f.0 == "unobservable" || f.0 == "panic_in_step").collect();
     for (kind, detail) in fails.iter().filter(|f| f.0 != "unobservable" && f.0 != "panic_in_step").take(3) {
         violations.push(Violation { signature: format!("C15:shuffle:{}", kind), summary: format!("shuffle / {}: {}", kind, truncate(detail, 500)), replay: json!({"kind": "c15", "tier": ctx.tier.name(), "seed": ctx.seed, "failure": {"kind": kind, "detail": detail}}) });
     }
     // number of cells tested (both environments, all tables, plus the two kind-pair cells)
-    let mut cells = 6u64;
+    let mut cells = 6u64 + 64 * 3 + 16;
     for t in &ts {
         for n in 2..=6 {
             cells += t.perm[n].len() as u64;
@@ -1050,6 +1084,27 @@ pub fn c15(ctx: &Ctx) -> i32 {
             let r = test("instruction_kind", envk, 0, "first cancellation before first new order".into(), t.cancel_first, t.kind_pairs, 0.5, &mut bias);
             worst.push(json!({"env": envk, "table": "instruction_kind", "steps": t.kind_pairs, "cancel_first": t.cancel_first, "max_deviation_over_threshold": (r * 1000.0).round() / 1000.0}));
         }
+    }
+    for (n, table, asset_table) in &huge_tables {
+        // which asset an instruction addresses must not influence where it is processed
+        for (a, row) in asset_table.iter().enumerate() {
+            let na: u64 = row.iter().sum();
+            if asset_table.len() > 1 && na > 0 {
+                let mut mxa: f64 = 0.0;
+                for j in 0..8 {
+                    mxa = mxa.max(test("huge_batch_asset", "multi-asset", *n, format!("instructions of asset {} at position block {}", a, j), row[j], na, 1.0 / 8.0, &mut bias));
+                }
+                worst.push(json!({"table": "huge_batch_asset", "n": n, "asset": a, "instructions": na, "max_deviation_over_threshold": (mxa * 1000.0).round() / 1000.0}));
+            }
+        }
+        let mut mx: f64 = 0.0;
+        for i in 0..8 {
+            for j in 0..8 {
+                // a cell expects n/64 of the n instructions (block sizes differ by at most one instruction)
+                mx = mx.max(test("huge_batch_block", "both", *n, format!("submission block {} at position block {}", i, j), table[i][j], *n as u64, 1.0 / 64.0, &mut bias));
+            }
+        }
+        worst.push(json!({"table": "huge_batch_block", "n": n, "cells": 64, "max_deviation_over_threshold": (mx * 1000.0).round() / 1000.0}));
     }
     if let Some((kind, detail)) = bias {
         violations.push(Violation { signature: format!("C15:shuffle:{}", kind), summary: format!("shuffle / {}: {}", kind, detail), replay: json!({"kind": "c15", "tier": ctx.tier.name(), "seed": ctx.seed, "failure": {"kind": kind, "detail": detail}}) });
